@@ -91,6 +91,56 @@ class DimensionCoordinate(
         self._initialise_netcdf(source)
         self._initialise_original_filenames(source)
 
+    def insert_dimension(self, position, inplace=False):
+        """Expand the shape of the data array.
+
+        The data of a dimension coordinate construct must be
+        1-dimensional, so a new size one dimension can only be
+        inserted into data that have no dimensions (as left, for
+        instance, by an in-place `squeeze`). In all other cases a `ValueError` is
+        raised.
+
+        .. seealso:: `squeeze`, `transpose`
+
+        :Parameters:
+
+            position: `int`
+                Specify the position that the new axis will have in
+                the data array.
+
+            {{inplace: `bool`, optional}}
+
+        :Returns:
+
+            `{{class}}` or `None`
+                The new construct with expanded data axes. If the
+                operation was in-place then `None` is returned.
+
+        **Examples**
+
+        >>> c = {{package}}.{{class}}(data={{package}}.Data([1.5]))
+        >>> c.insert_dimension(0)
+        Traceback (most recent call last):
+            ...
+        ValueError: Can't insert a dimension into a {{class}} that has 1-dimensional data: Dimension coordinate construct must have 1-dimensional data
+        >>> c.squeeze(inplace=True)
+        >>> c.shape
+        ()
+        >>> c.insert_dimension(0, inplace=True)
+        >>> c.shape
+        (1,)
+
+        """
+        data = self.get_data(None, _units=False, _fill_value=False)
+        if data is not None and data.ndim:
+            raise ValueError(
+                f"Can't insert a dimension into a {self.__class__.__name__} "
+                f"that has {data.ndim}-dimensional data: "
+                "Dimension coordinate construct must have 1-dimensional data"
+            )
+
+        return super().insert_dimension(position, inplace=inplace)
+
     def dump(
         self,
         display=True,
